@@ -10,6 +10,9 @@ function in harness/ch/c09_<family>.py whose body is a single call into harness/
 BIP/SLIP-44 specification).  The condition files are GENERATED from the table in this module
 (`python -m harness.c09 --gen`, run from /verif); jobs() refuses to run when they are stale.
 
+The database-backed part (which account / chain / index Wallet.new_keys asks for) is executed by engine SX over the
+symx.sqlmini stand-in database: harness/c09sx.py.
+
 Symbolic: account a, address_index i in [0, 2^31), change c in {0,1}, cosigner_index k in [0,15]; for the refusal
 family the out-of-range values are symbolic over all ints outside the range."""
 import json
@@ -24,6 +27,7 @@ CH = os.path.join(HERE, 'ch')
 REPO = os.environ.get('VT_REPO', '/repo')
 
 ASSUMPTIONS = [
+    'index issuance (SX jobs): the database is the symx.sqlmini stand-in (filter_by / order_by / first evaluated over key rows with symbolic columns; validated by replay on a real sqlite wallet); keys_for_path is recorded and stopped',
     'CrossHair 0.0.110 symbolic execution (z3) of the real functions; str(int), str slicing, isdigit, split and join '
     'on symbolic values are handled by CrossHair\'s own str/int models',
     'oracle: BIP44/49/84 m/purpose\'/coin\'/account\'/change/index, BIP45 m/45\'/cosigner/change/index, BIP48 '
@@ -45,11 +49,11 @@ _SYM = ('account, address_index in [0, 2^31), change in {0,1}, cosigner_index in
         'requests: extra level in [0,2^31) for int/list requests, [0,9] for string requests; wrong level names: 21 '
         'spellings x every position')
 BOUNDS = {
-    'quick': _SYM + '. Configurations: every network and every (witness type, multisig) structure appears at least once '
+    'quick': 'Index issuance (SX): every set of <= 2 existing keys (account, chain, index 0..2^31-2 symbolic, any creation order), default account 0/1, account argument None/0/1, both chains. ' + _SYM + '. Configurations: every network and every (witness type, multisig) structure appears at least once '
                     'for the request forms [] and [change, index] (11 + 11 conditions on the network x structure '
                     'diagonal); every other request form, the wallet methods, mixed witness types and the refusals on '
                     'one to three configurations (one per path shape BIP44-like / BIP45 / BIP48)',
-    'thorough': _SYM + '. Configurations: [] and [change, index]: all 11 networks x 3 witness types x single/multisig (66 '
+    'thorough': 'Index issuance (SX): <= 3 existing keys. ' + _SYM + '. Configurations: [] and [change, index]: all 11 networks x 3 witness types x single/multisig (66 '
                        'each); [index], named levels, explicit template (get_key_structure_data), public-master request, '
                        'Wallet.path_expand, Wallet.keys_for_path, spelled-out full string, level_offset: one network per '
                        'SLIP-44 coin type (bitcoin, testnet, litecoin, dogecoin) x all 6 structures (keys_for_path also on '
@@ -58,9 +62,10 @@ BOUNDS = {
                        'markers on the BIP45/BIP48 shapes; mixed witness types: all 18 (wallet type, requested type, '
                        'multisig) triples; purpose override: one value per structure',
 }
-OUTSIDE = ('index issuance without gaps or repeats, address uniqueness and restore equivalence (Wallet.new_key, '
-           'new_keys, get_key(s), keys_for_path after its path_expand call, _get_key, new_account, scan) are SQLAlchemy '
-           'queries over DbKey and are not encoded; that the key material at the produced path is the BIP32 child is '
+OUTSIDE = ('address uniqueness and restore equivalence; key derivation and persistence inside keys_for_path after its '
+           'path_expand call (WalletKey.from_key: ORM inserts), get_key(s) reuse of unused keys, new_account, scan - database '
+           'writes are not modelled (index issuance itself - Wallet.new_keys / _get_account_defaults - is decided by the SX '
+           'jobs over read-only stand-in rows); that the key material at the produced path is the BIP32 child is '
            'C03; cosigner_index > 15; user-defined path templates other than the three documented shapes; unicode '
            'digits and other exotic spellings of numbers in a caller-supplied path string')
 
@@ -342,6 +347,8 @@ def jobs(tier):
         j = Job(c.name, engine='ch', ch_file=c.file, ch_func=c.func, ch_timeout=c.timeout, note=c.proves, known_finding=kfid)
         j.cost = c.cost
         out.append(j)
+    from harness import c09sx             # database-backed part (index issuance, account defaults): engine SX + sqlmini
+    out += c09sx.jobs(tier)
     return out
 
 
